@@ -391,6 +391,11 @@ def rule_r1(ctx):
                 ok = isinstance(p, ast.If) and src(p.test) == "replacement.__is_open is False and parent.__is_open is False"
                 ctx.check(ok, "R1-open-flag", construct, "is_open=False only if replacement and parent were closed", site(n),
                           "an ancestor is marked closed although a sibling subtree may be open (the cached flag would hide open leaves from the solver)", "closed replacement in a closed parent")
+    for n in ast.walk(f):
+        if isinstance(n, ast.Assign) and src(n.targets[0]) == "is_open" and not isinstance(n.value, ast.Constant):
+            ctx.viol("R1-open-flag", construct, f"is_open = {src(n.value)[:50]}", site(n),
+                     "the cached openness flag of a rebuilt ancestor is copied from another node instead of being one of {True if the replacement is open, False if replacement and parent "
+                     "were closed, None = recompute}: a stale flag makes is_open()/is_complete() disagree with the leaves (e.g. after the only open leaf was replaced by a terminal)")
     # retain_id copy keeps value/children
     mk2 = [c for c in calls_in(f) if call_name(c) == "DerivationTree" and c.args and src(c.args[0]) == "replacement_tree.value"]
     ok = len(mk2) == 1 and src(mk2[0].args[1]) == "replacement_tree.children" and any(k.arg == "is_open" and src(k.value) == "replacement_tree.is_open()" for k in mk2[0].keywords)
@@ -428,6 +433,14 @@ def rule_h1(ctx):
     ok = any(src(x) == "children_values.append(stack.pop())" for x in ast.walk(f) if isinstance(x, ast.Call)) and any("tuple(children_values)" in src(x) for x in ast.walk(f) if isinstance(x, ast.BinOp))
     ctx.check(ok, "H1-structural-hash", construct, "children hashes folded in", site(f), "children do not contribute to the hash", "tuple(children_values) hashed")
     se = ctx.repo.func(DT, "DerivationTree.structurally_equal", "C16.H1")
+    t = " ".join(src(se).split())
+    distinguishes = "self.children is None and other.children is not None" in t and "other.children is None and self.children is not None" in t
+    collapses = "num_children()" in t and not distinguishes
+    if not distinguishes and not collapses and "children is None" not in t:
+        raise Unrecognised("C16.H1", f"{DT}:DerivationTree.structurally_equal", "open-vs-empty comparison not in a recognised shape")
+    ctx.check(distinguishes, "H1-open-vs-empty", f"{DT}:DerivationTree.structurally_equal", "open leaf (children None) != empty node (children [])", site(se),
+              "structural equality treats an unexpanded leaf (children is None) and a node with no children alike, while structural_hash, is_open() and the string tell them apart: "
+              "structurally equal trees then have different structural hashes", "None and [] distinguished in both directions")
     reads_id = any(isinstance(a, ast.Attribute) and a.attr in ("id", "_id") for a in ast.walk(se))
     ctx.check(not reads_id, "H1-structural-hash", f"{DT}:DerivationTree.structurally_equal", "structural equality ignores ids", site(se), "structurally_equal reads ids", "id-free")
 
